@@ -52,9 +52,15 @@ def cast_blocks(k, optkeys):
     return "".join(out)
 
 
-def group_macro(gname, listing):
-    mand = ", ".join(listing["mand"])
-    opt = ", ".join(o["tr"] if o["tr"] == o["key"] else "%s = %s" % (o["tr"], o["key"]) for o in listing["opt"])
+def group_macro(gname, listing, qualify=False):
+    # qualify: the name that sorts first in each list of two or more is written with a path (`self::Alpha`): the order of
+    # the fields is the order of the NAMES (last path segment / alias), however a name is spelled
+    def spell(names, n):
+        return "self::" + n if qualify and len(names) >= 2 and n == sorted(names)[0] else n
+    mnames = list(listing["mand"])
+    onames = [o["tr"] for o in listing["opt"]]
+    mand = ", ".join(spell(mnames, m) for m in mnames)
+    opt = ", ".join(spell(onames, o["tr"]) if o["tr"] == o["key"] else "%s = %s" % (spell(onames, o["tr"]), o["key"]) for o in listing["opt"])
     return "cglue_trait_group!(%s, { %s }, { %s });" % (gname, mand, opt)
 
 
@@ -71,7 +77,7 @@ def main():
         parts.append("pub mod t_%s {\n    use super::*;\n    %s}\n" % (t.lower(), trait_src(t, decls[t]).replace("\n", "\n    ")))
     for k, g in enumerate(groups):
         uses = "\n".join("    use super::t_%s::*;" % t.lower() for t in sorted(traits))
-        parts.append("pub mod g%d {\n    use super::*;\n%s\n    %s\n}\n" % (k, uses, group_macro("G", g["listing"])))
+        parts.append("pub mod g%d {\n    use super::*;\n%s\n    %s\n}\n" % (k, uses, group_macro("G", g["listing"], k % 2 == 1)))
     open(os.path.join(out, "src", "defs.rs"), "w").write("".join(parts))
     json.dump({"traits": traits, "groups": groups}, open(os.path.join(out, "index.json"), "w"))
     # (b) dynamic crate
@@ -112,7 +118,7 @@ def main():
         optkeys = lay["optional"]
         key2tr = {o["key"]: o["tr"] for o in g["listing"]["opt"]}
         key2tr.update({m: m for m in g["listing"]["mand"]})
-        src.append("pub mod g%d {\n    use super::*;\n    %s\n" % (k, group_macro("G", g["listing"])))
+        src.append("pub mod g%d {\n    use super::*;\n    %s\n" % (k, group_macro("G", g["listing"], k % 2 == 1)))
         all_opt = ", ".join(o["tr"] if o["tr"] == o["key"] else "%s = %s" % (o["tr"], o["key"]) for o in g["listing"]["opt"])
         first_opt = ""
         if g["listing"]["opt"]:
